@@ -68,6 +68,18 @@ CLAIMED = {
         "scipy/dask inv and cholesky are parameters with a stated contract (checked at run time on the inputs used), pinv=False only. Found and fixed D6, D22.",
         "§6 C14",
     ),
+    "C07": (
+        "Lean 4 theorems: each enrolment block update solves its normal equations with a positive-definite precision (speaker factors y, per-session channel factors x_h, diagonal system for z), Exec (Vector) enrolment = Spec enrolment; Float model vs update_y / compute_latent_x / update_z / enroll for ISV and JFA and the model's joint log-posterior vs an independent NumPy evaluation",
+        "Proof (partial): the three updates are the unique solutions of the block linear systems of the joint Gaussian posterior under mean = m + V y + U x_h + D z (positive-definite precisions, any number of sessions, fractional counts). Still to be proved in Lean: block argmax of logPost, monotone ascent, uniqueness of the mode, convergence; these clauses are currently covered by the search only (posterior trajectory, joint mode by solving the joint linear system).",
+        "Real arithmetic; np.linalg.inv is a parameter (contract: exact inverse). Partial: monotonicity/convergence clauses are not yet theorems. Found and fixed D7.",
+        "§6 C07",
+    ),
+    "C11": (
+        "Lean 4 theorems: score = frame-normalised linear score of the client mean m + V y + D z against the pooled probe with offset U x-hat; x-hat solves (I + U'S^-1 N U) x = U'S^-1 (F - N m) and maximises the channel-factor posterior (quad_max); pooling theorem (list of statistics = their sum); array-level entry points; Float model vs estimate_x / estimate_ux / score / score_using_array / transform for ISV and JFA",
+        "Proof for all UBMs with positive variances, all U, V, D, latent factors and probes with non-negative counts. Tie: K correspondence over 1-4 probe statistics (fractional/zero counts) and array-level wrappers.",
+        "Real arithmetic; np.linalg.inv is a parameter (contract: exact inverse), executed by Gauss-Jordan in the Float model. Found and fixed D13.",
+        "§6 C11",
+    ),
 }
 
 NOT_YET = "check not built yet in this round (see DESIGN.md §8 order of work); not claimed"
